@@ -9,12 +9,20 @@ import convlib
 WORD = re.compile(r"[A-Za-z_][A-Za-z0-9_:]*")
 
 
+PAIR_CAP = 2000
+
+
+def pair_table(src, names):
+    """(word, name) pairs whose similarity the harness reports as the oracle of the suggestion model: the words that are
+    not names (the misspellings) first; (pairs, truncated)"""
+    names = sorted(set(names))
+    words = sorted(set(WORD.findall(src)), key=lambda w: (w in names, w))
+    return [(w, n) for w in words for n in names][:PAIR_CAP], len(words) * len(names) > PAIR_CAP
+
+
 def with_pairs(c, extra_names=()):
     x = recvlib.BY_NAME[c["target"]]
-    names = sorted(set(recvlib.all_names(x)) | set(extra_names))
-    words = sorted(set(WORD.findall(c["src"])), key=lambda w: (w in names, w))      # misspellings first
-    c["pairs"] = [(w, n) for w in words for n in names][:2000]
-    c["pairs_truncated"] = len(words) * len(names) > 2000
+    c["pairs"], c["pairs_truncated"] = pair_table(c["src"], set(recvlib.all_names(x)) | set(extra_names))
     return c
 
 
